@@ -56,7 +56,7 @@ def check_verdict(scheme, cand_kind, ref_valid, lib_kind, lib_res, rec, info, ge
 
 
 # ------------------------------------------------------------------ RSA PKCS#1 v1.5
-RSA_BITS = [1024, 1024, 1025, 1031, 2048]
+RSA_BITS = [1024, 1025, 1025, 1031, 2048]
 V15_HASHES = ["SHA1", "SHA224", "SHA256", "SHA384", "SHA512", "SHA512-256", "SHA3_256", "SHA3_512", "MD5", "RIPEMD160"]
 V15_CANDS = ["genuine", "flip", "trunc", "extend", "other-msg", "other-key", "no-null", "ber-longform", "short-ps", "header-0002", "trailing-garbage",
              "wrong-oid", "wrong-digest", "ps-zero-byte", "sig>=n", "dup-null", "leading-zero-stripped", "em-first-byte", "ps-00-start"]
@@ -210,7 +210,7 @@ def run_v15(case, rec):
 
 # ------------------------------------------------------------------ RSA PSS
 PSS_CANDS = ["genuine", "genuine", "flip", "trunc", "extend", "other-msg", "other-key", "trailer", "top-bits", "ps-nonzero", "sep-missing", "salt-shorter",
-             "salt-longer", "h-wrong", "sig>=n", "verifier-other-slen"]
+             "salt-longer", "h-wrong", "sig>=n", "verifier-other-slen", "em-overflow", "em-overflow"]
 PSS_HASHES = ["SHA1", "SHA256", "SHA384", "SHA512", "SHA3_256"]
 
 
@@ -288,6 +288,17 @@ def run_pss(case, rec):
         if v.bit_length() > 8 * k:
             raise Skip()
         c = v.to_bytes(k, "big")
+    elif cand == "em-overflow":
+        # valid encoding plus a multiple of 2^(8*emLen): representable only when k = emLen + 1 (modulus bits = 1 mod 8);
+        # RFC 8017 8.1.2 step 2c (I2OSP) must fail
+        if k == em_len:
+            raise Skip()
+        m2 = int.from_bytes(em_ref, "big") + (1 + pos % 3) * (1 << (8 * em_len))
+        if m2 >= n:
+            m2 = int.from_bytes(em_ref, "big") + (1 << (8 * em_len))
+        if m2 >= n:
+            raise Skip()
+        c = pow(m2, nums[2], n).to_bytes(k, "big")
     elif cand == "verifier-other-slen":
         v_slen = slen + 1 if slen + 1 <= mx else slen - 1
         if v_slen < 0:
